@@ -56,7 +56,6 @@ from typing import Any, Callable, Dict, List
 # Third party imports
 import numpy as np
 import scipy.interpolate
-import scipy.misc
 
 # Midgard imports
 from midgard.dev import exceptions
@@ -130,7 +129,8 @@ def interpolate_with_derivative(
     """
     interpolator = _get_interpolator(kind)(x, y, **ipargs)
     y_new = interpolator(x_new)
-    y_dot = scipy.misc.derivative(interpolator, x_new, dx=dx)
+    # Central difference over x_new ± dx (what scipy.misc.derivative computed before it was removed from SciPy)
+    y_dot = (interpolator(x_new + dx) - interpolator(x_new - dx)) / (2 * dx)
 
     return y_new, y_dot
 
